@@ -406,7 +406,9 @@ class AoefSim:
             )
         )
         self.probes.hit(f"save:{COLLECTION_TYPE.get(described['type'], '?')}")
-        self.probes.hit(f"save:path-as-{op.get('path_as', 'str')}")
+        self.probes.hit(f"save:path-as-{op.get('path_as', 'str').split(':')[0]}")
+        if ":" in op.get("path_as", ""):
+            self.probes.hit("save:relative-to-changed-working-directory")
         if audio is not None:
             self.probes.hit(f"save:audio-as-{op.get('audio_as', 'str')}")
         if after is not None and outcome == "ack" and len(after) >= 100_000:
@@ -808,7 +810,8 @@ class _Gen:
         return self.rng.choice(["str", "path"])
 
     def path_how(self):
-        return self.rng.choice(["str", "path", "str", "path", "rel"])
+        return self.rng.choice(["str", "path", "str", "path", "rel",
+                                "rel:deep", "rel:ünï dir"])
 
     def api(self):
         return self.rng.choice(self.cfg["apis"])
